@@ -77,8 +77,10 @@ def run(tier):
     B = ref.build_file(ch, comp_type=0, hash_type=1, chunk_hash_type=3)[0]
     chb = [b""] + [corpus.rand(rnd, n) for n in (20000, 300, 40010)]
     Bbig = ref.build_file(chb, comp_type=2, hash_type=1, chunk_hash_type=3, level=1)[0]
+    chz = [b""] + [(b"%d " % k) * n for k, n in enumerate((300, 150, 400, 200, 350), 1)]       # compressible: stored size far below the data size
+    Bz = ref.build_file(chz, comp_type=2, hash_type=1, chunk_hash_type=3, level=3)[0]
     cases = []
-    for (BB, missing) in ((B, [1, 3]), (B, [2, 3, 5]), (B, [4]), (Bbig, [1, 3])):
+    for (BB, missing) in ((B, [1, 3]), (B, [2, 3, 5]), (B, [4]), (Bbig, [1, 3]), (Bz, [1, 3]), (Bz, [2])):
         h = ref.parse_header(BB)
         T = bytearray(BB)
         for c in missing:
@@ -90,15 +92,31 @@ def run(tier):
             combos = [(hl, good) for hl in hv] + [(hv[0], b) for b in bv] + [(rnd.choice(hv), rnd.choice(bv)) for _ in range(30 if tier == "quick" else 300)]
             if BB is Bbig and tier == "quick":
                 combos = rnd.sample(combos, 25)
+            if BB is Bz:        # payload damage in every part (the server's bytes do not match the chunk checksums)
+                for p_ in range(3):
+                    b_ = bytearray(good); q = good.find(b"\r\n\r\n") + 6 + 17 * p_
+                    if q < len(b_): b_[q] ^= 0x21
+                    combos.append((hv[0], bytes(b_)))
+                b_ = bytearray(good)
+                for q in range(good.find(b"\r\n\r\n") + 4, len(b_), 11): b_[q] ^= 0x55
+                combos.append((hv[0], bytes(b_)))
             for (hl, body) in combos:
                 frag = rnd.choice([1, 3, 17, 1000, 16384, 16384]) if len(body) < 3000 else rnd.choice([1000, 16384])
-                cases.append((BB, T, missing, hl, body, frag))
+                cases.append((BB, T, missing, hl, body, frag, 5))
+            # the same with the library's logging turned up (the callbacks log what the server sent), incl. boundaries and
+            # header lines far longer than any log line buffer (still within one 16 KiB transport buffer)
+            for longb in (b"L" * 2100, b"M" * 12000, b"%s%n" * 600):
+                cases.append((BB, T, missing, b"Content-Type: multipart/byteranges; boundary=" + longb + b"\r\n", response(BB, h, missing, longb), 16384, 0))
+            for (hl, body) in rnd.sample(combos, 6):
+                cases.append((BB, T, missing, hl, body, rnd.choice([17, 16384]), 0))
     scripts = []; meta = []
-    for i, (BB, T, missing, hl, body, frag) in enumerate(cases):
+    for i, (BB, T, missing, hl, body, frag, loglevel) in enumerate(cases):
         cid = "a%d" % i
         sc = delta.Scenario(cid, wd, BB, T, rounds=0, final=False, budget=40)
         sc.write_files()
         L = sc.script().splitlines()[:-1]
+        if loglevel != 5:
+            L.insert(1, "loglevel %d" % loglevel)          # ZCK_LOG_DDEBUG: every log statement formats its arguments (stderr is discarded)
         hp = os.path.join(wd, cid + ".hdr"); bp = os.path.join(wd, cid + ".body"); open(hp, "wb").write(hl); open(bp, "wb").write(body)
         L += ["missing_range 1 0 -1", "dl_set_range 0 1", "header_cb 0 hex:%s" % b"HTTP/1.1 206 Partial Content\r\n".hex(), "header_cb 0 file:%s" % hp, "header_cb 0 hex:0d0a"]
         pos = 0
